@@ -26,7 +26,15 @@ def main():
     from mc.core.report import Check
     chk = Check(prop, a.tier, seed, level=getattr(mod, "LEVEL", "model_checking"))
     chk.only = a.only
-    mod.run(chk)
+    try:
+        mod.run(chk)
+    except BaseException:
+        # a harness error (e.g. DIVERGENCE) is fatal either way, but violations already on record are still reported
+        import traceback
+        traceback.print_exc()
+        chk.finish()
+        print("%s HARNESS ERROR (see traceback above) -> exit 1" % prop)
+        sys.exit(1)
     sys.exit(chk.finish())
 
 
